@@ -194,6 +194,7 @@ CMP_ALPHA = {
     "bool": [True, False],
     "int?": [1, None, 3],
     "mixed-num": [1, 1.0, True],
+    "hash-equal": [-1, -2, 0],          # hash(-1) == hash(-2): content shortcuts keyed on hashes must not be trusted
 }
 
 
@@ -234,12 +235,16 @@ def unit_compare(unit):
                 agg.evals += 1; agg.transitions += 2; agg.states += 1
                 try:
                     v = Vector(xs)
+                    if n % 2:
+                        v.fingerprint()
                     res = op(v, v)
                     check_bool_result(agg, f"compare.{opn}.self", res, want, case,
                                       f"from serif import Vector\nv = Vector({xs!r})\nprint(list(v.__{opn}__(v)) if hasattr(v,'__{opn}__') else None, 'expected', {want!r})")
                     tup = tuple(xs)
                     a, b = Vector(tup), Vector(tup)
+                    a.fingerprint(); b.fingerprint()
                     res = op(a, b)
+                    check_bool_result(agg, f"compare.{opn}.copy-fp", op(a, a.copy()), want, dict(case, form="copy, fingerprint cached"))
                     check_bool_result(agg, f"compare.{opn}.shared", res, want, dict(case, form="shared-tuple"))
                 except TypeError as e:
                     if _python_raises(op, xs, xs):
@@ -258,12 +263,14 @@ def unit_compare(unit):
                     agg.states += 1
                     if len(set(want)) > 1:
                         agg.nontrivial += 1
-                    for form in ("vv", "vl", "vt"):
+                    for form in ("vv", "vl", "vt", "vv-fp"):
                         agg.evals += 1; agg.transitions += 1
                         case = {"op": opn, "left": xs, "right": ys, "form": form}
                         try:
                             l = Vector(xs)
-                            r = Vector(ys) if form == "vv" else (list(ys) if form == "vl" else tuple(ys))
+                            r = Vector(ys) if form in ("vv", "vv-fp") else (list(ys) if form == "vl" else tuple(ys))
+                            if form == "vv-fp":          # both operands have a cached fingerprint before they are compared
+                                l.fingerprint(); r.fingerprint()
                             res = op(l, r)
                         except Exception as e:
                             agg.violation(V(f"compare.{opn}.{form}", "raises-" + type(e).__name__, case, want))
@@ -565,6 +572,29 @@ def unit_table(unit):
         res = None
     if table_obs(t) != before and not same_table(table_obs(t), model):
         agg.violation(V("table.getitem", "operand-modified", d, before, table_obs(t)))
+    # ---- integer row index: in range -> that row's cells; out of range (either side) -> an error when the row is read
+    for i in range(-2 * nrows - 2, 2 * nrows + 2):
+        agg.evals += 1; agg.transitions += 1; agg.compared += 1
+        case = dict(d, rowkey=i)
+        try:
+            got = list(t[i])
+            if len(names):
+                got2 = [t[i, c] for c in range(len(names))]
+            else:
+                got2 = got
+        except Exception as e:
+            got = got2 = e
+        if -nrows <= i < nrows:
+            want = [vals[i] for _, vals in model]
+            if isinstance(got, Exception) or not same_list(got, want) or isinstance(got2, Exception) or not same_list(got2, want):
+                agg.violation(V("table.getitem.introw", "wrong-row", case, want, repr(got)[:80]))
+            else:
+                agg.outcomes["int-row-ok"] += 1
+        elif names:
+            if not isinstance(got, Exception) or not isinstance(got2, Exception):
+                agg.violation(V("table.getitem.introw", "out-of-range-row-readable", case, "IndexError", repr(got)[:80]))
+            else:
+                agg.outcomes["int-row-out-of-range-raises"] += 1
     # ---- histories: rename a column through a live view (and swap two names), then select by name
     if nrows and len(names) >= 1:
         scenarios = [("rename-first", {0: "renamed"})]
